@@ -107,6 +107,18 @@ CHECKS = {
              "and provenance of every emitted item, re-read by the tool's own parser).",
         note="The document part is concrete validation on shipped inputs, not a solver verdict; the rebuild lemmas over all "
              "small block layouts are decided in C14. Pseudo-push operands are compared numerically."),
+    "C12": dict(
+        level="model_checking", design="5/C12", engine="CrossHair havoc of module globals + native histories in fresh processes",
+        technique="CrossHair symbolic execution (z3) of the real front-end from an arbitrary symbolic pre-state of its scalar "
+                  "module globals (one inductive step instead of histories)",
+        text="Every module-level name assigned inside a function of the specification generator is found by an AST walk of "
+             "the current source; all scalar ones (28 on this tree) are set to unconstrained symbolic values at once and the "
+             "real evm2rbr_compiler/get_sfs_dict runs on 8 concrete blocks under 3 (quick) / 4 (thorough) option sets: CrossHair "
+             "must confirm over all paths that specification and sub-block list equal a fresh interpreter's. Container globals, "
+             "emitted code and statistics are covered by real histories (0-2 predecessor blocks plus earlier subjects, one "
+             "fresh process per history).",
+        note="Option-determined globals keep their option value (the quantifier says 'same options'). CrossHair stubs the "
+             "three debug-dump file writes. Histories are enumerated from a pool, not exhaustive."),
     "C14": dict(
         level="other", design="5/C14", engine="pysym on split_by_numbers + bounded-exhaustive class sequences through the real front-end",
         technique="symbolic execution (AST -> z3) of the partition heuristic over symbolic store positions; bounded-"
